@@ -8,7 +8,7 @@ from common import Ctx, driver_json, fmt
 import uni_common as U
 
 PROPERTY = "C09"
-LEAN_MODULES = ["Proofs.C09", "Proofs.C09.Kernel", "Proofs.C09.Recip"]
+LEAN_MODULES = ["Proofs.C09", "Proofs.C09.Kernel", "Proofs.C09.Recip", "Proofs.C09.Tick", "Proofs.C09.ByValue"]
 DRIVERS = ["driver"]
 RULE = ("each case builds a real UniLpMarket on pool (token0 = quote) and on its mirror (token0 = base; ticks negated, per-token volumes swapped, "
         "same base/quote price, same wallet) and runs the same sequence of base/quote-denominated operations on both: add_liquidity (by price), "
@@ -25,6 +25,11 @@ ASSUMPTIONS = ["|tick| <= 330000 + range width: get_liquidity_for_amount0 floors
                "integer, one unit of it is 1/L of the position (matters below L = 2e12); liquidity itself at 1e-12 relative plus 2 units",
                "a state in which the price lies on a range bound to within 1e-9 relative (in sqrt price) is counted and not compared: there the kernels' "
                "reciprocity error (~1e-17) decides the regime and get_liquidity divides by (s - sqrt_bound); the property's regimes are in / below / above",
+               "a price closer than 1e-4 relative (two ticks) to a range bound without being on it — only prices that are not on a tick get there — "
+               "is compared at max(1e-12, 4e-17 / distance): amounts and liquidity are quotients by (sqrtP - sqrt_bound) there and the two orientations' "
+               "sqrt prices differ by ~1e-17 relative (Decimal(10**-12) is a binary double)",
+               "estimate helpers: a range bound within one tick of the price is measured, not compared (estimate_liquidity decides the regime by the "
+               "floor tick, which is not mirror-symmetric for a price that is not on a tick)",
                "prices handed to add_liquidity lie in the inner half of a tick-spacing cell, so that rounding to the spacing is orientation independent "
                "(a separate stream measures the cell-midpoint case)"]
 
@@ -34,10 +39,25 @@ BAND = 330000     # |tick| band in which the integer liquidity math keeps 1e-12 
 SPECS = [(6, 18), (18, 6), (8, 18), (18, 18), (6, 6)]
 
 
+def bar_volumes(rng):
+    """(quote volume, base volume) of a bar: often one-directional — a bar in which only one of the two tokens flowed in (or none)"""
+    vq, vb = Decimal(rng.randint(0, 10 ** 12)), Decimal(rng.randint(0, 10 ** 24))
+    k = rng.random()
+    if k < 0.15:
+        vq = Decimal(0)
+    elif k < 0.3:
+        vb = Decimal(0)
+    elif k < 0.34:
+        vq = vb = Decimal(0)
+    return vq, vb
+
+
 class Pair:
     """world A: token0 = quote (q0 = True); world B: the mirror (token0 = base)"""
 
-    def __init__(self, rng, dq=None, db=None, fee=None, tick=None):
+    def __init__(self, rng, dq=None, db=None, fee=None, tick=None, frac=None, restore=None):
+        """`frac` (a Fraction in (0, 1)): the pool price lies that far (linearly) between the prices of tick and tick + 1 of orientation A —
+        a price that is not on a tick; the row's closeTick is then the floor tick of each orientation (A: tick, B: -tick - 1)"""
         dq, db = (dq, db) if dq is not None else rng.choice(SPECS)
         fee = fee or rng.choice(U.FEES)
         TokenInfo, Broker, MarketInfo, UniLpMarket, UniV3Pool, UniswapMarketStatus = U.imports()
@@ -46,19 +66,29 @@ class Pair:
         tA = tick if tick is not None else rng.randint(-BAND // sp, BAND // sp) * sp
         bal = (Decimal(rng.randint(10 ** 3, 10 ** 8)) / 100, Decimal(rng.randint(10 ** 3, 10 ** 9)) / 100)
         liq = Decimal(rng.randint(10 ** 14, 10 ** 24))
-        vq, vb = Decimal(rng.randint(0, 10 ** 12)), Decimal(rng.randint(0, 10 ** 24))
-        self.A = U.World(rng, pool_spec=(dq, db, True), fee=fee, tick=tA, balances=bal)
+        vq, vb = bar_volumes(rng)
+        if restore:     # a stored replay: the wallet and the status row of the recorded pair
+            bal = tuple(Decimal(x) for x in restore["balances"])
+            liq, vq, vb = Decimal(restore["liq"]), Decimal(restore["vq"]), Decimal(restore["vb"])
+        price, tB = None, -tA
+        if frac:
+            from demeter.uniswap.helper import tick_to_base_unit_price
+            p0, p1 = tick_to_base_unit_price(tA, dq, db, True), tick_to_base_unit_price(tA + 1, dq, db, True)
+            price = p0 + (p1 - p0) * Decimal(frac.numerator) / Decimal(frac.denominator)
+            tB = -tA - 1
+        self.A = U.World(rng, pool_spec=(dq, db, True), fee=fee, tick=tA, balances=bal, price=price)
         # the mirror: base token first. World names tokens ta (token0) / tb (token1); in B token0 is the base token
-        self.B = U.World(rng, pool_spec=(db, dq, False), fee=fee, tick=-tA, balances=bal, price=self.A.price)
+        self.B = U.World(rng, pool_spec=(db, dq, False), fee=fee, tick=tB, balances=bal, price=self.A.price)
         self.A.set_status(tA, self.A.price, liq, vq, vb)          # A: token0 = quote volume, token1 = base volume
-        self.B.set_status(-tA, self.A.price, liq, vb, vq)
-        self.dq, self.db, self.fee, self.tick = dq, db, fee, tA
-        self.spec = {"dq": dq, "db": db, "fee": fee, "tick": tA, "balances": [fmt(bal[0]), fmt(bal[1])], "liq": fmt(liq), "vq": fmt(vq), "vb": fmt(vb)}
+        self.B.set_status(tB, self.A.price, liq, vb, vq)
+        self.dq, self.db, self.fee, self.tick, self.frac = dq, db, fee, tA, frac
+        self.spec = {"dq": dq, "db": db, "fee": fee, "tick": tA, "balances": [fmt(bal[0]), fmt(bal[1])], "liq": fmt(liq), "vq": fmt(vq), "vb": fmt(vb),
+                     "frac": None if not frac else str(frac)}
 
     def refresh(self, rng, new_tick):
         """next bar: new close tick / price, fee accrual on both"""
         liq = Decimal(rng.randint(10 ** 14, 10 ** 24))
-        vq, vb = Decimal(rng.randint(0, 10 ** 12)), Decimal(rng.randint(0, 10 ** 24))
+        vq, vb = bar_volumes(rng)
         price = self.A.market.tick_to_price(new_tick)
         self.A.set_status(new_tick, price, liq, vq, vb)
         self.B.set_status(-new_tick, price, liq, vb, vq)
@@ -121,15 +151,21 @@ def compare_obs(ctx, P, oa, ob, what, rep, tol=TOL):
     bad = []
     kinds = {"wallet_base": unit_b, "wallet_quote": unit_q, "net_value": unit_v, "liquidity_value": unit_v, "base_uncollected": unit_b,
              "quote_uncollected": unit_q, "base_in_position": unit_b, "quote_in_position": unit_q}
+    # a token amount that (nearly) vanishes in a position — price a fraction of a tick inside a bound — is L * (sqrtP - sqrt_bound): the kernels'
+    # reciprocity error is amplified by the cancellation; like the per-position amounts below it is compared on the scale of the positions' value
+    lv = max(abs(Fraction(oa.get("liquidity_value", 0))), abs(Fraction(ob.get("liquidity_value", 0))))
+    scale_k = {"base_in_position": tol * lv / price if price else 0, "quote_in_position": tol * lv}
     for k, unit in kinds.items():
         if k in oa and k in ob:
-            if not close(oa[k], ob[k], tol, unit):
+            if not close(oa[k], ob[k], tol, unit + scale_k.get(k, 0)):
                 bad.append(f"{k}: {oa[k]} vs {ob[k]}")
             ctx.dev(Fraction(oa[k]), Fraction(ob[k]))
     if oa.get("position_count") != ob.get("position_count") or oa.get("balance_error") != ob.get("balance_error"):
         bad.append(f"position_count/balance error: {oa.get('position_count')},{oa.get('balance_error')} vs {ob.get('position_count')},{ob.get('balance_error')}")
     if set(oa["positions"]) != set(ob["positions"]):
-        bad.append(f"position keys {sorted(oa['positions'])} vs mirrored {sorted(ob['positions'])}")
+        ctx.violate(f"mirror.{what}.position-keys", f"{what}: the positions held are not mirror images: {sorted(oa['positions'])} on the token0=quote pool, "
+                    f"{sorted(ob['positions'])} (mirrored back) on its mirror", rep)
+        return False
     else:
         for key, pa in oa["positions"].items():
             pb = ob["positions"][key]
@@ -173,13 +209,11 @@ def gen_op(rng, P):
         return t if k < 0.4 else (t + rng.choice((-1, 1)) * (sp // 2) if k < 0.75 else t + rng.randint(-sp + 1, sp - 1))
 
     def exec_price():
-        """an explicit execution price: `tick=` (raw tick, either sign, never ±1: see sentinel_stream) or `sqrt_price_x96=` (of a tick)"""
+        """an explicit execution price: `tick=` (any raw tick, either sign; see also sentinel_script) or `sqrt_price_x96=` (of a tick)"""
         k = rng.random()
         if k < 0.7:
             return {}
         t = w.tick + rng.randint(-4 * sp, 4 * sp)
-        if abs(t) <= 1:
-            t = 2 * sp
         return {"tick": t} if k < 0.88 else {"sqrt_tick": t}
     r = rng.random()
     if r < 0.22 or not keys:
@@ -235,6 +269,35 @@ def near_bound(w, lower, upper):
     return any(abs(s - b) * 10 ** 9 < b for b in (g(lower), g(upper)))
 
 
+def bound_distance(w, lower, upper):
+    """relative distance (in sqrt price) of the market's price from the nearer bound of [lower, upper]"""
+    from demeter.uniswap.helper import base_unit_price_to_sqrt_price_x96 as p2s
+    from demeter.uniswap.liquitidy_math import get_sqrt_ratio_at_tick as g
+    pool = w.pool
+    s = p2s(w.market.market_status.data.price, pool.token0.decimal, pool.token1.decimal, pool.is_token0_quote)
+    return min(Fraction(abs(s - b), b) for b in (g(lower), g(upper)))
+
+
+def conditioning_tol(P, op=None):
+    """a price a fraction of a tick away from a range bound (only prices that are not on a tick get there): the amount on the vanishing side
+    and, with one offered amount binding, the liquidity are quotients by (sqrtP - sqrt_bound); the ~1e-17 relative difference between the
+    two orientations' sqrt prices (Decimal(10**-12) is a binary double) is amplified by 1/distance.  Tolerance 4e-17 / distance there."""
+    rs = [(k.lower_tick, k.upper_tick) for k in P.A.market.positions]
+    if op is not None and "lower" in op and "upper" in op and op["op"] != "collect":
+        lo, up = op["lower"], op["upper"]
+        if op.get("trim"):
+            from demeter.uniswap.helper import nearest_usable_tick
+            lo, up = sorted((nearest_usable_tick(lo, P.sp), nearest_usable_tick(up, P.sp)))
+        rs.append((lo, up))
+    try:
+        d = min([bound_distance(P.A, lo, up) for lo, up in rs if lo < up], default=None)
+    except AssertionError:
+        return Fraction(0)
+    if d is None or d == 0 or d >= Fraction(1, 10 ** 4):
+        return Fraction(0)
+    return Fraction(4, 10 ** 17) / d
+
+
 def regime_flip(P, op):
     """price numerically on a range bound: which side it falls on (and, inside, how far from the bound) is decided by the kernels'
     reciprocity error of ~1e-17, and get_liquidity is ill-conditioned there (amount / (s - sqrt_bound))"""
@@ -248,6 +311,17 @@ def regime_flip(P, op):
         return near_bound(P.A, lo, up) or near_bound(P.B, -up, -lo)
     except AssertionError:
         return False
+
+
+def price_ticks_aligned(P):
+    """add_liquidity_by_value looks the token ratio up (and decides below / inside / above) at price_to_tick(price): the floor tick of the pool's own
+    orientation rounded to the spacing.  When the two orientations' ticks are mirror images (the hypothesis of C09_add_by_value_one_sided_partial)
+    the known finding's cause is absent, and the helper is held to the property; when they are one spacing apart it is the known finding."""
+    try:
+        pa, pb = P.A.market.market_status.data.price, P.B.market.market_status.data.price
+        return P.A.market.price_to_tick(pa) == -P.B.market.price_to_tick(pb)
+    except Exception:  # noqa: BLE001
+        return True
 
 
 def liq_granularity(P):
@@ -277,9 +351,17 @@ def apply_both(P, op):
 DRV = []   # (request, implementation's answer, replay) for the model correspondence of the views
 
 
+class ModelTieBroken(Exception):
+    """the code no longer has the shape the model of the views is tied to (a helper the model takes as an oracle input is gone)"""
+
+
 def view_req(w, name, value, l, u, impl, rep):
-    from demeter.uniswap.helper import base_unit_price_to_real_tick, base_unit_price_to_sqrt_price_x96, _sqrt_price_to_tick, _from_x96
-    from demeter.uniswap.liquitidy_math import estimate_ratio
+    try:
+        from demeter.uniswap.helper import base_unit_price_to_real_tick, base_unit_price_to_sqrt_price_x96, _sqrt_price_to_tick, _from_x96
+        from demeter.uniswap.liquitidy_math import estimate_ratio
+    except ImportError as e:
+        # the mirror comparison of the two implementations (the oracle) does not need the model: it goes on
+        raise ModelTieBroken(str(e)) from None
     pool = w.pool
     price = w.market.market_status.data.price
     with U.guard("base_unit_price_to_real_tick/estimate_ratio/base_unit_price_to_sqrt_price_x96",
@@ -312,7 +394,15 @@ def estimates(ctx, P, rng, rep, reg_tag):
     from demeter.uniswap._typing import PositionInfo
     sp, c = P.sp, (P.A.tick // P.sp) * P.sp
     a, b = rng.randint(1, 60) * sp, rng.randint(1, 60) * sp
-    lo, up, reg = rng.choice(((c - a, c + b, "inside"), (c + a, c + a + b, "below"), (c - a - b, c - a, "above")))
+    # the estimate helpers take any ticks (no spacing rule). "near": a bound d = 2..40 ticks from the price — the token ratio changes by
+    # ~1/d per tick there, so evaluating it at a tick rounded in the pool's orientation (floor here is ceil in the mirror) shows.
+    # A bound within one tick of the price is measured separately (estimate_edge_stream): there the floor tick decides the regime.
+    t = P.A.tick
+    d = rng.choice((2, 3, 5, 8, 13, 40))
+    lo, up, reg = rng.choice(((c - a, c + b, "inside"), (c + a, c + a + b, "below"), (c - a - b, c - a, "above"),
+                              (t - d, t + b, "inside-near-lower"), (t - a, t + 1 + d, "inside-near-upper")))
+    if P.frac:
+        reg += ":off-tick"
     value = Decimal(rng.randint(1, 10 ** 7)) / 100
     for name in ("estimate_liquidity", "estimate_amount"):
         res = []
@@ -331,7 +421,12 @@ def estimates(ctx, P, rng, rep, reg_tag):
             except Exception as e:  # noqa: BLE001
                 res.append((type(e).__name__, None, None, None))
                 impl = type(e).__name__
-            DRV.append(view_req(w, name, value, l, u, impl, rep))
+            try:
+                DRV.append(view_req(w, name, value, l, u, impl, rep))
+            except ModelTieBroken as e:
+                if not ctx.notes.get("view_model_tie_broken"):
+                    ctx.disagree(f"{name}: the model's tie to the code is broken ({e}); estimate helpers are compared between the orientations only", rep)
+                ctx.notes["view_model_tie_broken"] = ctx.notes.get("view_model_tie_broken", 0) + 1
         (ea, la, ba, qa), (eb, lb, bb, qb) = res
         ctx.case(f"{name}:{reg}:{P.dq}/{P.db}:{P.fee}:{ea or 'ok'}/{eb or 'ok'}")
         r2 = dict(rep, estimate={"fn": name, "value": fmt(value), "lower": lo, "upper": up})
@@ -353,13 +448,18 @@ def estimates(ctx, P, rng, rep, reg_tag):
             ctx.violate(f"mirror.{name}.{reg}", f"{name}(value={value}, range [{lo},{up}] in the token0=quote pool, price {reg} the range): " + "; ".join(bad), r2)
 
 
-def run_sequence(ctx, rng, n_ops, spec=None):
-    P = Pair(rng, *(spec or ()))
+def run_sequence(ctx, rng, n_ops, spec=None, frac=None, tick=None, script=None, est_p=0.35):
+    """`script`: a function (rng, P, i) -> (op, regime tag) | None replacing the random generator (directed streams)"""
+    P = Pair(rng, *(spec or ()), frac=frac, **({} if tick is None else {"tick": tick}))
     rep = {"pair": P.spec, "ops": []}
     if not compare_obs(ctx, P, observe(P.A, False), observe(P.B, True), "initial", rep):
         return
-    for _ in range(n_ops):
-        op, reg = gen_op(rng, P)
+    for i in range(n_ops):
+        op, reg = (script(rng, P, i) if script else None) or gen_op(rng, P)
+        if op["op"] == "bar" and P.frac:
+            continue    # an off-tick pair has closeTick = floor tick in each orientation: the two tick paths are not mirror images
+        if P.frac:
+            reg += ":off-tick"
         opj = {k: (fmt(v) if isinstance(v, (Decimal, Fraction)) else v) for k, v in op.items()}
         rep = {"pair": P.spec, "ops": rep["ops"] + [opj]}
         if op["op"] == "bar":
@@ -376,6 +476,14 @@ def run_sequence(ctx, rng, n_ops, spec=None):
             ctx.count("boundary_regime_flip_skipped")
             return
         else:
+            # add_liquidity_by_value: the known findings are about price ticks that round differently in the two orientations; everything else
+            # (aligned ticks) is reported under its own keys
+            by_value_tag = ""
+            if op["op"] == "add_by_value":
+                by_value_tag = "" if not price_ticks_aligned(P) else ".ticks-aligned"
+                reg += ":ticks-aligned" if by_value_tag else ":ticks-differ"
+                if by_value_tag:
+                    rep = dict(rep, aligned=True)
             (ea, ra), (eb, rb) = apply_both(P, op)
             outcome = f"{ea or 'ok'}"
             if any(regime_flip(P, {"op": "x", "lower": k.lower_tick, "upper": k.upper_tick}) for k in P.A.market.positions):
@@ -383,7 +491,7 @@ def run_sequence(ctx, rng, n_ops, spec=None):
                 ctx.count("boundary_regime_flip_skipped")
                 return
             if ea != eb:
-                ctx.violate(f"mirror.{op['op']}.outcome", f"{op['op']} ({reg}): {ea or 'ok'} on the token0=quote pool, {eb or 'ok'} on its mirror", rep)
+                ctx.violate(f"mirror.{op['op']}.outcome{by_value_tag}", f"{op['op']} ({reg}): {ea or 'ok'} on the token0=quote pool, {eb or 'ok'} on its mirror", rep)
                 return
             if ea is None and ra is not None:
                 est = op["op"] == "add_by_value"
@@ -391,7 +499,7 @@ def run_sequence(ctx, rng, n_ops, spec=None):
                 kb = [Fraction(x) for x in rb]
                 if op["op"] in ("add_by_tick", "add", "add_by_value"):
                     kb = [-kb[1], -kb[0]] + kb[2:]
-                tol = TOL_EST if est else max(TOL, liq_granularity(P))
+                tol = TOL_EST if est else max(TOL, liq_granularity(P), conditioning_tol(P, op))
                 price = Fraction(P.A.price)
                 is_add = op["op"] in ("add_by_tick", "add", "add_by_value")
                 # [lower, upper, base, quote, liquidity] for adds, [base, quote] for remove/collect, fee-led triples for swaps:
@@ -409,20 +517,119 @@ def run_sequence(ctx, rng, n_ops, spec=None):
                         return Fraction(4, 10 ** min(P.db, P.dq))
                     j = i - 2 if is_add else i
                     return (Fraction(4, 10 ** P.db) + tol * total / price) if j == 0 else (Fraction(4, 10 ** P.dq) + tol * total)
+                if is_add and ka[:2] != kb[:2]:
+                    # the range a call settles on (trimmed to the spacing) must be the mirror image, exactly
+                    ctx.violate(f"mirror.{op['op']}.range", f"{op['op']}(lower={op.get('lower', op.get('lower_price'))}, upper={op.get('upper', op.get('upper_price'))}) ({reg}) opened "
+                                f"[{int(ka[0])},{int(ka[1])}] on the token0=quote pool but [{int(-kb[1])},{int(-kb[0])}] on its mirror "
+                                f"(= [{int(kb[0])},{int(kb[1])}] seen from the first pool)", rep)
+                    return
                 bad = [i for i, (x, y) in enumerate(zip(ka, kb)) if not close(x, y, tol, abs_tol(i))]
                 if bad:
-                    ctx.violate(f"mirror.{op['op']}.result", f"{op['op']} ({reg}) returned {[float(x) for x in ka]} vs mirrored {[float(x) for x in kb]}", rep)
+                    ctx.violate(f"mirror.{op['op']}.result{by_value_tag}", f"{op['op']} ({reg}) returned {[float(x) for x in ka]} vs mirrored {[float(x) for x in kb]}", rep)
                     return
         ctx.case(f"{op['op']}:{reg}:{P.dq}/{P.db}:{P.fee}:{outcome}", rep if len(rep["ops"]) <= 2 else None)
-        tol = TOL_EST if any(o["op"] == "add_by_value" for o in rep["ops"]) else max(TOL, liq_granularity(P))
+        tol = TOL_EST if any(o["op"] == "add_by_value" for o in rep["ops"]) else max(TOL, liq_granularity(P), conditioning_tol(P))
+        if conditioning_tol(P):
+            ctx.count("price_within_a_tick_of_a_bound_compared_at_4e-17/distance")
         with U.guard("get_market_balance/get_position_status", {"world": U.world_spec(P.A), "ops": []}):
             oa, ob = observe(P.A, False), observe(P.B, True)
-        if not compare_obs(ctx, P, oa, ob, f"state-after.{op['op']}", rep, tol):
+        if not compare_obs(ctx, P, oa, ob, f"state-after.{op['op']}" + (by_value_tag if op["op"] == "add_by_value" else ""), rep, tol):
             return
-        if rng.random() < 0.35:
+        if rng.random() < est_p:
             estimates(ctx, P, rng, rep, reg)
             DRV.append(balance_req(P.A, rep))
             DRV.append(balance_req(P.B, rep))
+
+
+# ------------------------------------------------------------------------------------------ directed streams
+SMALL_TICKS = (-1, 1, 0, -2, 2, -1, 1)
+
+
+def sentinel_script(rng, P, i):
+    """add_liquidity_by_tick with an explicit execution tick that an "argument not given" test could mistake for a sentinel (-1, 0, 1, ...):
+    every integer in the tick range is a tick, and tick t on a pool is tick -t on its mirror (t = 1 <-> -1).  The market's own tick is
+    several spacings away, so using the market price instead of the given tick shows in the amounts."""
+    if i > 0 and rng.random() < 0.4:
+        return None
+    w, sp = P.A, P.sp
+    br, pool = w.broker, w.pool
+    bb, qb = br.assets[pool.base_token].balance, br.assets[pool.quote_token].balance
+    k1, k2 = rng.randint(1, 8), rng.randint(1, 8)
+    t = rng.choice(SMALL_TICKS + (sp // 2, -(sp // 2), sp, -sp))
+    op = {"op": "add_by_tick", "lower": -k1 * sp, "upper": k2 * sp, "base": bb * Decimal(rng.choice(("0.1", "0.3"))),
+          "quote": qb * Decimal(rng.choice(("0.1", "0.3"))), "sqrt": None, "tick": t, "trim": rng.random() < 0.5}
+    kind = "tick"
+    if rng.random() < 0.25:
+        op["sqrt_tick"] = rng.choice((-1, 1, 0, 3 * sp, -3 * sp))     # sqrt_price_x96 given as well: it overrides `tick`
+        kind = "tick+sqrt"
+    return op, f"inside:explicit-{kind}:{'neg' if t < 0 else ('zero' if t == 0 else 'pos')}{'' if abs(t) > 1 else ':unit'}"
+
+
+def tie_script(rng, P, i):
+    """raw range ticks exactly half way between two usable ticks (spacing 10 / 60 / 200, either sign, either parity of the cell) through the
+    entry points that trim: round-half-even is symmetric under negation, so the trimmed ranges must be exact mirror images"""
+    w, sp = P.A, P.sp
+    br, pool = w.broker, w.pool
+    bb, qb = br.assets[pool.base_token].balance, br.assets[pool.quote_token].balance
+    c = (w.tick // sp) * sp
+    a, b = rng.randint(1, 30), rng.randint(1, 30)
+    h = sp // 2
+    lo, up = c - a * sp + rng.choice((h, -h)), c + b * sp + rng.choice((h, -h))
+    if i % 3 == 2:
+        lo = c - a * sp            # one aligned bound, one tie
+    par = f"cell{(lo // sp) % 2}{(up // sp) % 2}"
+    sign = "neg" if c < 0 else "pos"
+    if i % 2 == 0:
+        return {"op": "add_by_tick", "lower": lo, "upper": up, "base": bb * Decimal("0.2"), "quote": qb * Decimal("0.2"), "sqrt": None, "tick": None,
+                "trim": True}, f"inside:tie:{sign}:{par}"
+    return {"op": "add_by_value", "lower": lo, "upper": up, "value": (qb + bb * w.price) * Decimal("0.2"), "trim": True}, f"inside:tie:{sign}:{par}"
+
+
+def directed_streams(ctx, rng):
+    n = ctx.scale(1, 12)
+    for fee in U.FEES:
+        sp = int(Decimal(str(fee)) * 200)
+        for spec in SPECS:
+            for _ in range(n):
+                # explicit small ticks; the market sits 3..6 spacings from tick 0, on either side
+                run_sequence(ctx, rng, 3, spec=spec + (fee, rng.choice((-1, 1)) * rng.randint(3, 6) * sp), script=sentinel_script, est_p=0)
+        for sign in (1, -1):
+            for _ in range(3 * n):
+                run_sequence(ctx, rng, 4, spec=rng.choice(SPECS) + (fee, sign * rng.randint(50, BAND // sp) * sp), script=tie_script, est_p=0)
+    # prices that are not on a tick (a fractional tick): every helper that rounds the price to a tick in the pool's own orientation shows
+    for _ in range(ctx.scale(120, 2500)):
+        run_sequence(ctx, rng, rng.randint(1, 4), frac=Fraction(rng.choice((1, 2, 3, 5, 7, 8, 9)), 10), est_p=1)
+
+
+def estimate_edge_stream(ctx, rng, n):
+    """estimate_liquidity / estimate_amount with a range bound within one tick of a price that is not on a tick: estimate_liquidity decides
+    below / inside / above by the floor tick of the pool's own orientation (`current_tick <= lower_tick` is "below"), which is not
+    mirror-symmetric there: with the price f ticks above the lower bound one orientation answers "all token0", the other "inside".
+    The difference is at most (1 tick / range width) of the value.  Measured, not compared (ASSUMPTIONS)."""
+    from demeter.uniswap._typing import PositionInfo
+    diff = tot = 0
+    for _ in range(n):
+        P = Pair(rng, frac=Fraction(rng.choice((2, 5, 8)), 10))
+        t, b = P.A.tick, rng.randint(2, 60) * P.sp
+        lo, up = rng.choice(((t, t + b), (t - 1, t + b), (t - b, t + 1), (t - b, t + 2)))
+        value = Decimal(rng.randint(1, 10 ** 7)) / 100
+        res = []
+        for w, (l, u) in ((P.A, (lo, up)), (P.B, (-up, -lo))):
+            try:
+                with U.guard("estimate_liquidity"):
+                    liq, t0, t1 = w.market.estimate_liquidity(value, PositionInfo(l, u))
+                base, quote = (t1, t0) if w.pool.is_token0_quote else (t0, t1)
+                res.append((Fraction(base) * Fraction(P.A.price), Fraction(quote)))
+            except Exception as e:  # noqa: BLE001
+                res.append(type(e).__name__)
+        tot += 1
+        if isinstance(res[0], str) or isinstance(res[1], str):
+            diff += res[0] != res[1]
+        elif any(abs(x - y) > TOL_EST * Fraction(value) for x, y in zip(*res)):
+            diff += 1
+        ctx.case(f"estimate_liquidity:bound-within-a-tick:{P.dq}/{P.db}:{P.fee}:measured")
+    ctx.note("estimate_bound_within_a_tick_differs", f"{diff}/{tot} (price not on a tick, a range bound within one tick of it: the floor tick of the pool's "
+             f"orientation decides the regime in estimate_liquidity; measured, outside the compared stream)")
 
 
 def midpoint_stream(ctx, rng, n):
@@ -447,6 +654,8 @@ def run(ctx: Ctx):
     rng = ctx.rng
     for i in range(ctx.scale(600, 12000)):
         run_sequence(ctx, rng, rng.randint(2, 9))
+    directed_streams(ctx, rng)
+    estimate_edge_stream(ctx, rng, ctx.scale(60, 1500))
     midpoint_stream(ctx, rng, ctx.scale(40, 1000))
     ctx.impl_traces = ctx.evaluations
     # the views of both orientations against the model (bit-exact: the driver runs the 35-digit Decimal semantics)
@@ -474,7 +683,7 @@ def replay(ctx: Ctx, case) -> bool:
     U.cap_violations(sub)
     rng = random.Random(3)
     ps = case["pair"]
-    P = Pair(rng, ps["dq"], ps["db"], ps["fee"], ps["tick"])
+    P = Pair(rng, ps["dq"], ps["db"], ps["fee"], ps["tick"], frac=Fraction(ps["frac"]) if ps.get("frac") else None, restore=ps if "liq" in ps else None)
     DEC = ("base", "quote", "amount", "price", "value", "max0", "max1", "lower_price", "upper_price")
     rep = {"pair": P.spec, "ops": []}
     for opj in case["ops"]:
